@@ -4,8 +4,11 @@
 # Must not run concurrently with anything else that builds from /repo.
 cd /verif
 out=seeded/SUMMARY.txt
+# with arguments (directories under seeded/): only those, result in target/logs/reseed_some.txt
+[ $# -gt 0 ] && out=target/logs/reseed_some.txt
 : > $out.tmp
-for d in seeded/C*/; do
+for d in ${@:-seeded/C*/}; do
+  d=${d%/}/
   n=$(basename $d); c=${n%%-*}
   [ "$n" = "C13-multiline-take-limit-transcoded" ] && c=C17
   [ "$n" = "C03-printer-multiline-lines-split-on-lf" ] && c=C09
